@@ -199,7 +199,8 @@ def main():
         sys.exit(-1)
 
     # avoid signaling BrokenPipeError as whatnot
-    sys.stderr.close()
+    if sys.stderr is not None:
+        sys.stderr.close()
 
 
 if __name__ == '__main__':
